@@ -5,6 +5,12 @@ VERIF = os.path.dirname(os.path.dirname(os.path.abspath(__file__)))
 ALL = ["C%02d" % i for i in range(1, 21)]
 
 CHECKS = {
+ "C14": dict(engine="I+H", technique="exhaustive enumeration of JSON values x concatenations x segmentations and of hostile byte strings / length fields on the three real framings (forked batches, ASan/UBSan), plus explicit-state BFS to a fixpoint over request/response/duplicate/unknown-id/clock-advance histories on two real Rpc peers under a virtual clock",
+   text="Every generated JSON value round-trips through each framing's own encoder; every concatenation of up to 3 messages under every split into up to 3 segments (2-segment and fixed-chunk splits under ASan) decodes to the same sequence with unconsumed bytes re-presented; extreme length fields, wrong magic, every truncation and every short byte string over a JSON-punctuation alphabet must be answered by return value only. The completion half explores all histories for <=3 requests to a fixpoint: each callback exactly once, response before the deadline else timeout, duplicates/late/unknown ids ignored.",
+   note="Trusted: the protos keep no state between onRecvData calls (so 2-segment + chunked ASan splits present every buffer window); stack limit 8 MiB for the deep-nesting family; virtual clock at clock_gettime.", ref="2/C14"),
+ "C16": dict(engine="H", technique="canonical enumeration of machine definitions by weight x BFS over call histories (incl. re-entrant calls from every action) with state dedup; step-by-step comparison with a reference interpreter + enter/exit ledger",
+   text="All machine definitions up to a weight cap (states, routes with wildcard/guards incl. flip-flop, per-state handlers, initial/terminal states, sub-machines to depth 2/3) are driven through every call sequence of start/run(e)/stop/restart up to depth 5/7, plain and re-entrant; the full trace of guards, exit/route/enter actions, notifications, return values and observers of every machine in the hierarchy must equal the reference semantics, enter/exit must balance whenever the outermost machine is stopped, re-entrant calls must be rejected without change.",
+   note="Trusted: the reference interpreter (calibrated: 0 mismatches on 100000 flat machines; readings R1-R6 listed in the harness); machine-count cap reported as @CAP.", ref="2/C16"),
  "C19": dict(engine="I", technique="exhaustive enumeration of finite input domains on the real codecs under ASan/UBSan with exact-size heap outputs, compared against independent bitwise / python (hashlib, zlib, binascii, pure-python AES) references",
    text="Every byte string up to length 2-3 over the full byte range (and longer over boundary alphabets and patterns) as encoder and as decoder input, every output capacity (exact, one short, zero), every scalable-integer value around each length boundary and every short encoded string, every short typed-field sequence for the serializer in both endians, CRC/checksum/MD5 (all 2-way and a grid of 3-way update splits) and AES-128 (KAT vectors, all single-bit key x block pairs) are enumerated and compared with independent references; any sanitizer report is attributed to its input.",
    note="Trusted: the references (bitwise CRC from the polynomial, RFC 1071 sum, hashlib/zlib/binascii, a pure-python AES written from FIPS-197), ASan/UBSan with recover mode; MD5/AES equality is decided on the enumerated set only.", ref="2/C19"),
